@@ -135,11 +135,11 @@ func TestC15Child(t *testing.T) {
 // strace parsing
 
 type fsOp struct {
-	Kind string // mkdir open write fsync rename unlink rmdir mark
-	Path string
-	To   string
-	Data []byte
-	Fd   string
+	Kind  string // mkdir open write fsync rename unlink rmdir mark
+	Path  string
+	To    string
+	Data  []byte
+	Fd    string
 	Trunc bool
 }
 
@@ -326,7 +326,9 @@ type mfs struct {
 	files map[string]*mfile
 }
 
-func newMFS(root string) *mfs { return &mfs{dirs: map[string]bool{root: true}, files: map[string]*mfile{}} }
+func newMFS(root string) *mfs {
+	return &mfs{dirs: map[string]bool{root: true}, files: map[string]*mfile{}}
+}
 
 func (m *mfs) clone() *mfs {
 	c := &mfs{dirs: map[string]bool{}, files: map[string]*mfile{}}
@@ -421,7 +423,7 @@ type c15Snap struct {
 	id          string
 	term, index uint64
 	size        int
-	closedAt    int // op position of the close-ok mark (-1: never)
+	closedAt    int  // op position of the close-ok mark (-1: never)
 	doomed      bool // cancelled / abandoned / close failed
 }
 
